@@ -210,15 +210,18 @@ class PiecewiseConstantBirthDeath(Distribution):
             )
         )
 
-    def p0(self, A, B, t, t_i):
+    def p0(self, A, B, t, t_i, indices):
+        """Probability that a lineage alive at time t_i, in the epoch of the given
+        indices ending at time t, has no sampled descendant."""
+        lambda_ = self.lambda_.gather(-1, indices)
         term = torch.exp(A * (t - t_i)) * (1.0 + B)
         one_minus_Bi = 1.0 - B
         return (
-            self.lambda_
-            + self.mu
-            + self.psi
+            lambda_
+            + self.mu.gather(-1, indices)
+            + self.psi.gather(-1, indices)
             - A * (term - one_minus_Bi) / (term + one_minus_Bi)
-        ) / (2.0 * self.lambda_)
+        ) / (2.0 * lambda_)
 
     def log_p(self, t, t_i, rho):
         """Probability density of lineage alive between time t and t_i has no
@@ -354,6 +357,7 @@ class PiecewiseConstantBirthDeath(Distribution):
                     B.gather(-1, indices_y),
                     torch.gather(times[..., 1:], -1, indices_y),
                     y,
+                    indices_y,
                 )
                 log_p += (
                     (
@@ -404,20 +408,16 @@ class PiecewiseConstantBirthDeath(Distribution):
             -2,
         )
 
-        if self.removal_probability is not None and m > 1:
-            r = self.removal_probability.gather(-1, indices_y)[..., 1:]
-            p0 = self.p0(A[..., 1:], B[..., 1:], times[..., 1:-1], times[..., 2:])
-            log_p += (
-                r[..., 0]
-                * self.log_q(A[..., 1:], B[..., 1:], times[..., 1:-1], times[..., 2:])
-                + torch.log(1.0 - r[..., 1:])
-                + (N[..., :-1] - r[..., 0])
-                * torch.log(r[..., 1:] + (1 - r[..., 1:]) * p0)
-            )
-
         # rho-sampled tips: N_i log(rho_i) summed over the sampling events
         mask = (N > 0).logical_and(rho > 0.0)
         log_p += (N * torch.where(mask, rho, torch.ones_like(rho)).log()).sum(-1)
+
+        if self.removal_probability is not None:
+            # a rho-sampled tip is removed with probability r_i, otherwise it stays
+            # and has no sampled descendant after t_i (p_{i+1}(t_i), 1 at the present)
+            r = torch.broadcast_to(self.removal_probability, rho.shape)
+            stays = torch.where(mask, r + (1.0 - r) * p[..., 1:], torch.ones_like(rho))
+            log_p += (N * stays.log()).sum(-1)
 
         if self.removal_probability is not None:
             log_p += torch.tensor(2.0).log() * (taxa_shape[-1] - 1)
